@@ -34,6 +34,7 @@ type Verifier struct {
 	lemmas    []*boundLemma
 	purePats  []string
 	sentinels []*sentinel
+	constSlices []*constSlice
 	guards    map[string]*boundGuard // heap key of the guarded field -> guard
 	loadNotes []string
 	loadErrs  []string
@@ -144,6 +145,15 @@ func (v *Verifier) addFile(cf *ContractFile, pkg *types.Package) error {
 	for _, s := range cf.Specs {
 		s.Pkg = pkg
 		v.specs[s.Name] = s
+		if s.Opaque && s.Body != nil {
+			// definitional axiom: forall params :: name(params) == body
+			var args []Expr
+			for _, p := range s.Params {
+				args = append(args, &EIdent{p.Name})
+			}
+			def := &EBinary{Op: "==", L: &ECall{Fun: &EIdent{s.Name}, Args: args}, R: &ECall{Fun: &EIdent{"$body:" + s.Name}, Args: args}}
+			v.axioms = append(v.axioms, &boundAxiom{&Axiom{Name: "def-" + s.Name, Expr: &EQuant{Forall: true, Vars: s.Params, Body: def}, Pos: s.Pos}, pkg})
+		}
 	}
 	for _, a := range cf.Axioms {
 		v.axioms = append(v.axioms, &boundAxiom{a, pkg})
